@@ -18,8 +18,9 @@ Tie, three independent legs (all on the REAL code from /repo):
      Model/PgLex.lean (my transcription of the PostgreSQL documentation, trusted)
      executed by the Lean driver on the real outputs.
 
-Two known-false regions are left on the current tree, each reported with ONE
-stable key and the minimal witness in the detail:
+Known-false regions left on the current tree (see notes/C18.known_findings.json), each reported with
+ONE stable key and the minimal witness in the detail: dbops-textwrap-alters-literal:*,
+dbops-marker-substitution-in-literal:fixup_query and
 `pg-eliteral-backslash:quote_e_literal` (`quote_e_literal` does not escape
 backslashes; dead code) and `pg-name-byte-length:edgedb_name_to_pg_name` (the
 length guard counts characters, PostgreSQL truncates at 63 bytes; the detail
@@ -52,8 +53,8 @@ REQUIRED = [
     'EdbVerif.C18.pg_eliteral_partial', 'EdbVerif.C18.pg_eliteral_counterexample',
     'EdbVerif.C18.edgeql_dollar_total', 'EdbVerif.C18.edgeql_const_total',
     'EdbVerif.C18.pg_name_length', 'EdbVerif.C18.pg_name_partial', 'EdbVerif.C18.pg_name_counterexample',
-    'EdbVerif.C18.pg_do_block_partial', 'EdbVerif.C18.pg_funcbody_partial', 'EdbVerif.C18.pg_do_block_counterexample',
-    'EdbVerif.C18.edgeql_param_counterexample',
+    'EdbVerif.C18.pg_do_block', 'EdbVerif.C18.pg_funcbody', 'EdbVerif.C18.pg_comment_on',
+    'EdbVerif.C18.edgeql_param',
 ]
 
 BIDI = set(range(0x202A, 0x202F)) | set(range(0x2066, 0x206A))
@@ -129,6 +130,7 @@ class Real:
             c(q.quote_ident, s, allow_reserved=True), c(q.quote_ident, s, allow_num=True),
             c(pc.quote_literal, s), c(pc.quote_e_literal, s),
             c(pc.quote_ident, s), c(pc.quote_ident, s, column=True),
+            c(self.qc.param_to_str, s),
         ]
 
     def via_generators(self, s: str) -> dict:
@@ -156,7 +158,7 @@ class Real:
 
 QNAMES = ['escape_string', 'quote_literal', 'dollar_quote_literal', 'visit_Constant', 'quote_ident',
           'quote_ident(force)', 'quote_ident(allow_reserved)', 'quote_ident(allow_num)',
-          'pg.quote_literal', 'pg.quote_e_literal', 'pg.quote_ident', 'pg.quote_ident(column)']
+          'pg.quote_literal', 'pg.quote_e_literal', 'pg.quote_ident', 'pg.quote_ident(column)', 'param_to_str']
 BNAMES = ['visit_BytesConstant', 'pg.quote_bytea_literal']
 
 # ----------------------------------------------------- Rust result -> model form
@@ -649,8 +651,8 @@ def check_statements(ctx, fam, stream: list, id_kind) -> dict:
             want = exp[0][1]
             strs_ = [t for t in (r.toks if r else []) if t.kind == 'Str']
             ok = r is not None and r.error is None and len(strs_) == 1 and strs_[0].value == want.encode()
-        big = [v for (k, v) in exp if k == 'ptr' and re.fullmatch(r'[1-9][0-9]*', v) and int(v) > 2 ** 64 - 1]
-        nonascii_num = [v for (k, v) in exp if k == 'ptr' and re.fullmatch(r'[1-9]\d*', v) and not v.isascii()]
+        big = []               # (repaired by 638d351)
+        nonascii_num = []      # (repaired by 638d351: a regression is an ordinary violation)
         if not ok and nonascii_num:
             fam.add('numeric-name-non-ascii-digits:quote_ident(allow_num)',
                     'quote_ident(allow_num=True) (pointer position, parameters: ident_to_str / visit_Ptr / param_to_str) '
@@ -659,13 +661,13 @@ def check_statements(ctx, fam, stream: list, id_kind) -> dict:
                     min(nonascii_num, key=lambda v: (len(v), v)), text,
                     {'template': tmpl, 'tokenizer_error': r.error if r else None})
             continue
-        raw = RAW_NAME_TEMPLATES.get(tmpl)
+        raw = None             # (repaired by f480704 / 42c40f7)
         if not ok and raw and (raw[1] or any(_needs_bq(x) for x in names)):
             fam.add(raw[0], raw[2], min(names, key=lambda v: (len(v), v)), text,
                     {'template': tmpl, 'tokenizer_error': r.error if r else None,
                      'tokens': [(t.kind, t.text) for t in (r.toks if r else [])][:8]})
             continue
-        lit = LITERAL_TEMPLATES.get(tmpl)
+        lit = None             # (repaired by a7c78b9 / 489a007)
         if not ok and lit and lit[1](names[0]):
             fam.add(lit[0], lit[2], names[0], text, {'template': tmpl, 'tokenizer_error': r.error if r else None})
             continue
@@ -722,7 +724,26 @@ def dbops_oracle(ctx, R: 'Real', fam: 'Families', labels: list) -> dict:
             if isinstance(sm, str) and sm.startswith('EXECUTE '):
                 items.append(('comment', lab, sm[len('EXECUTE '):].lstrip(' '), 'PS',
                               (f'COMMENT ON DATABASE {qi(lab)} IS ', None, sm)))
-    out = ctx.driver('C18', [f'{op} {hx(t)}' for (_k, _l, t, op, _e) in items])
+    # the tag-selection loops (f6e6d09): real tag vs Model/Quote doTag / funcTag on the body the loop saw
+    tag_items = []
+    for (kind, lab, text, _op, _e) in items:
+        if kind in ('do', 'do-cond', 'func'):
+            m = re.match(r'\$[A-Za-z0-9_]*\$', text)
+            if m:
+                tag = m.group(0)
+                end = text.rfind('\n' + tag)
+                if end > len(tag):
+                    tag_items.append((kind, lab, tag, text[len(tag) + 1:end]))
+    out_all = ctx.driver('C18', [f'{op} {hx(t)}' for (_k, _l, t, op, _e) in items] +
+                         ['T ' + hx(body) for (_k, _l, _t, body) in tag_items])
+    out = out_all[:len(items)]
+    for (kind, lab, tag, body), mo in zip(tag_items, out_all[len(items):]):
+        f = mo.split(' ')
+        mtag = unhx(f[1 if kind == 'func' else 0]) if f[1 if kind == 'func' else 0].startswith('=') else f[0]
+        if mtag != tag:
+            ctx.fail(f'corr:dbops-tag:{kind}:{lab.encode().hex()}', 'Model/Quote tag loop and the real dbops tag differ',
+                     {'input_hex': lab.encode().hex(), 'real_tag': tag, 'model_tag': mtag, 'body': body[:200]},
+                     no_input=True)
     n_bad = 0
     for (kind, lab, text, op, (want, after, full)), mo in zip(items, out):
         f = mo.split(' ')
@@ -738,7 +759,7 @@ def dbops_oracle(ctx, R: 'Real', fam: 'Families', labels: list) -> dict:
             continue
         tagged = {'do': '$__$', 'do-cond': '$__$', 'func': '$____funcbody____$'}.get(kind)
         detail = {'layer': kind, 'generated_sql': full, 'pglex': mo[:300]}
-        if tagged and tagged in ql(lab):
+        if False:   # (repaired by f6e6d09)
             key = 'dbops-fixed-dollar-tag:' + ('PLTopBlock' if kind != 'func' else 'CreateFunction')
             fam.add(key, f'dbops wraps the SQL in the FIXED dollar tag {tagged} without checking that the body (which '
                          f'carries quoted literals: enum labels, annotation values, defaults, function source) does '
@@ -758,7 +779,7 @@ def dbops_oracle(ctx, R: 'Real', fam: 'Families', labels: list) -> dict:
                     'edgedbinstdata_VER textually in the WHOLE statement, including inside quoted literals that carry data '
                     '(SetSingleDBMetadata json, the extension config spec json in delta.py): a value containing a marker '
                     'is silently rewritten', lab, full, detail)
-        elif kind == 'comment' and "'" in lab:
+        elif False:   # (repaired by 4eafb00)
             fam.add('dbops-comment-on-unescaped-quote:SetMetadata',
                     'SetMetadata / UpdateMetadata splice object.get_id() (a "-quoted identifier) into the \'-quoted string '
                     '\'COMMENT ON … IS \' without doubling single quotes: a database (branch) or role name with an '
@@ -770,7 +791,7 @@ def dbops_oracle(ctx, R: 'Real', fam: 'Families', labels: list) -> dict:
                 ctx.fail(f'oracle:dbops:{kind}:{lab.encode().hex()}',
                          'a dbops quoting layer is not read back (PgLex) as one constant holding the inner literal',
                          {'input_hex': lab.encode().hex(), **detail})
-    return {'checks': len(items), 'failed_outside_known_regions': n_bad}
+    return {'checks': len(items), 'tag_loop_comparisons': len(tag_items), 'failed_outside_known_regions': n_bad}
 
 
 def param_oracle(ctx, R: 'Real', fam: 'Families', names: list) -> dict:
@@ -797,13 +818,13 @@ def param_oracle(ctx, R: 'Real', fam: 'Families', names: list) -> dict:
         extra = {'tokenizer_error': r.error if r else None,
                  'tokens': [(t.kind, t.value.decode('utf-8', 'replace')) for t in (r.toks if r else [])][:4]}
         odd = [c for c in x if c.isalnum() and not c.isalpha() and c not in '0123456789']
-        if isinstance(o, str) and o == '$' + x and odd and not re.fullmatch(r'[1-9]\d*', x):
+        if False:   # (repaired by 237fcc6)
             fam.add('param-name-unicode-numeric:param_to_str',
                     'param_to_str decides with quote_ident\'s identifier classes (\\w: alphanumeric), but after `$` the '
                     'tokenizer continues a name only over ASCII digits, `_` and ALPHABETIC characters: a name with a '
                     'non-ASCII numeric character (superscript two, Arabic-Indic digits, …) is left bare and the parameter '
                     'ends in front of that character (the back-quoted form $`…` is accepted)', x, o, extra)
-        elif re.fullmatch(r'[1-9]\d*', x) and not x.isascii():
+        elif False:   # (repaired by 638d351)
             fam.add('numeric-name-non-ascii-digits:quote_ident(allow_num)',
                     'quote_ident(allow_num=True) (pointer position, parameters: ident_to_str / visit_Ptr / param_to_str) '
                     'matches purely numeric names with the Unicode \\d, the tokenizer reads ASCII digits only: a name '
@@ -896,9 +917,9 @@ def run(ctx: core.Ctx):
             for t in itertools.product(A_MIX, repeat=n):
                 add(''.join(t), 'exh-mix')
         if ctx.quick():
-            # length 4 over the 12 string symbols: the quarter selected by the seed
+            # length 4 over the 12 string symbols: the eighth selected by the seed
             for i, t in enumerate(itertools.product(A_STR, repeat=4)):
-                if i % 4 == ctx.seed % 4:
+                if i % 8 == ctx.seed % 8:
                     add(''.join(t), 'exh-str4')
         # keywords in mixed case (EdgeQL and PostgreSQL), bare and decorated
         kws = sorted(set(R.qlkw.edgeql_keywords) | set(R.pgkw.pg_keywords))
@@ -991,7 +1012,7 @@ def run(ctx: core.Ctx):
             g = R.via_generators(s)
             exp = {'pgsql.codegen StringConstant': outs[8], 'dbops.encode_value': outs[8],
                    'dbops.encode_value tuple': 'ROW(' + str(outs[8]) + ')',
-                   'param_to_str': '$' + str(R.call(R.q.quote_ident, s, allow_reserved=True, allow_num=True)),
+                   'param_to_str': outs[12],
                    'ident_to_str': '::'.join(str(R.call(R.q.quote_ident, part)) for part in s.split('::'))}
             for name, v in g.items():
                 if v != exp[name]:
@@ -1100,7 +1121,7 @@ def run(ctx: core.Ctx):
             if pl == 0 and isinstance(r, str) and not r.startswith('!EXC'):
                 qr = R.call(R.pc.quote_ident, r)
                 if isinstance(qr, str) and not qr.startswith('!EXC'):
-                    pg_lines.append(('PI', qr, 'plain', r, 12, len(qr)))
+                    pg_lines.append(('PI', qr, 'plain', r, 99, len(qr)))
         for s, outs in zip(S, real_q):
             small = len(s) <= 2 or strs[s] in ('witness', 'replay')
             for op, i in (('PS', 8), ('PE', 9), ('PI', 10), ('PI', 11)):
@@ -1140,7 +1161,7 @@ def run(ctx: core.Ctx):
         # ---- leg 1: Python functions vs Model/Quote
         for s, outs, mo in zip(S, real_q, m_q):
             mf = mo.split(' ')
-            if len(mf) != 12:
+            if len(mf) != 13:
                 raise core.Infra(f'driver Q answer malformed: {mo[:100]}')
             for i, (ro, m) in enumerate(zip(outs, mf)):
                 mv = unhx(m) if m.startswith('=') else m
@@ -1299,14 +1320,14 @@ def run(ctx: core.Ctx):
         ctx.log('EdgeQL oracle done')
         # ---- oracle for the SQL forms: PgLex (trusted spec) on the real outputs
         for (op, text, what, s, i, olen), mo in zip(pg_lines, m_pg):
-            name = BNAMES[1] if op == 'PB' else (QNAMES[i] if i < 12 else 'pg.quote_ident(edgedb_name_to_pg_name)')
+            name = BNAMES[1] if op == 'PB' else (QNAMES[i] if i < 13 else 'pg.quote_ident(edgedb_name_to_pg_name)')
             isb = isinstance(s, bytes)
             sb = s if isb else s.encode()
             if not isb:
                 if '\x00' in s:
                     bump(f'oracle {name}: not expressible (NUL)')
                     continue
-                if op == 'PI' and (s == '' or (len(sb) > 63 and i != 12)):
+                if op == 'PI' and (s == '' or (len(sb) > 63 and i != 99)):
                     bump(f'oracle {name}: not expressible (empty or longer than 63 bytes)')
                     continue
             n_pg += 1
@@ -1316,7 +1337,7 @@ def run(ctx: core.Ctx):
                 if op == 'PI':
                     # ident, unreserved keyword, or (column=False only) a col_name keyword
                     val, consumed = f[2], int(f[3])
-                    good = f[1] in (('ident', 'kw1', 'kw4') if i in (10, 12) else ('ident', 'kw1'))
+                    good = f[1] in (('ident', 'kw1', 'kw4') if i in (10, 99) else ('ident', 'kw1'))
                 else:
                     val, consumed = f[1], int(f[2])
                     good = True
@@ -1324,7 +1345,7 @@ def run(ctx: core.Ctx):
             if good:
                 bump(f'{name} ' + ('quoted' if text[:1] in '\'"E' else 'bare'))
                 continue
-            if i == 12 and not isb and len(sb) > 63 and not s.isascii():
+            if i == 99 and not isb and len(sb) > 63 and not s.isascii():
                 extra = {'pglex': mo, 'bytes': len(sb), 'characters': len(s)}
                 if f[0] == 'ok' and op == 'PI':
                     other = clipped.setdefault(f[2], s)
@@ -1345,10 +1366,9 @@ def run(ctx: core.Ctx):
                         'the start of an escape (value changed; a trailing backslash swallows the closing quote)',
                         s, text, {'pglex': mo})
             else:
-                ctx.fail(f'oracle:{name}:{sb.hex()}:{what}',
-                         f'{name}: PostgreSQL\'s lexical rules (Model/PgLex) do not read the output back as one '
-                         f'literal/identifier with the original value',
-                         {'input_hex': sb.hex(), 'is_bytes': isb, 'real_output': text, 'pglex': mo})
+                viol(name, sb, f'{name}: PostgreSQL\'s lexical rules (Model/PgLex) do not read the output back as one '
+                               f'literal/identifier with the original value',
+                     {'input_hex': sb.hex(), 'is_bytes': isb, 'real_output': text, 'pglex': mo, 'context': what})
 
         acc['LT'] += len(LT)
         acc['pg'] += len(pg_lines)
